@@ -67,5 +67,18 @@ int main(int argc, char** argv) {
   add_unit("lxnorm_3", 3, 1, [](auto const* x, auto* o) { using T = TY(o); o[0] = glm::lxNorm(ldv<3, T>(x), 3u); });
   add_unit("lxnorm2_3", 6, 1, [](auto const* x, auto* o) { using T = TY(o); o[0] = glm::lxNorm(ldv<3, T>(x), ldv<3, T>(x + 3), 3u); });
 #endif
+#if IN_PART(0)
+  // orthonormalize(mat3): Gram-Schmidt on the columns - the result is orthonormal, keeps the first direction, keeps the plane of the first two
+  // columns and the orientation of every column (exploration; the vec3 overload orthonormalize(x, y) has a theorem)
+  add_prop("p_orthonormalize_mat3", 9, 2e-3, 1e-9, [](auto const* x) { using T = TY(x); auto m = ldm<3, 3, T>(x);
+    T det = glm::determinant(m); if (!(std::abs(det) > T(0.2))) return T(-1);
+    for (int c = 0; c < 3; ++c) if (!(glm::length(m[c]) > T(0.3))) return T(-1);
+    auto r = glm::orthonormalize(m); T d = 0;
+    for (int a = 0; a < 3; ++a) for (int b = 0; b < 3; ++b) d = std::max(d, std::abs(glm::dot(r[a], r[b]) - (a == b ? T(1) : T(0))));
+    auto n0 = glm::normalize(m[0]); for (int i = 0; i < 3; ++i) d = std::max(d, std::abs(r[0][i] - n0[i]));
+    d = std::max(d, std::abs(glm::dot(glm::cross(m[0], m[1]), r[1])) / (glm::length(m[0]) * glm::length(m[1])));     // r1 in the plane of m0, m1
+    if (!(glm::dot(r[1], m[1]) > T(0)) || !(glm::dot(r[2], m[2]) > T(0))) d = std::max(d, T(1));
+    return d; });
+#endif
   return unit_main(argc, argv);
 }
